@@ -420,3 +420,38 @@ FIXED = [
     ('task-under-wait-for', 'import asyncio\nasync def user():\n    x = 1\n    await asyncio.sleep(0)\n    y = 2\n    await asyncio.sleep(0)\n    z = 3\nasync def amain():\n    t = asyncio.create_task(asyncio.wait_for(user(), 5))\n    await t\nasyncio.run(amain())\n'),
     ('multi-line-lambda', 'g = (lambda a:\n     a +\n     1)\nprint(g(1))\n'),
 ]
+
+
+# Programs whose behaviour depends on HOW the code is compiled and in which environment it is exec'd (compiler flags
+# inherited by compile(), the globals given to exec, interpreter flags).  Executed directly and under nextline they must
+# behave the same; they do on the unchanged tree for these reasons: compile() in compose.py inherits no __future__ flag
+# (compose.py has none), both exec in a fresh dict holding only __name__, both run in the same interpreter.
+# Not in the family: print(__name__) -- see ENV_OBSERVATIONS.
+ENV_PROGRAMS = [
+    ('env-annotations-module', "x: int = 1\ny: 'str' = 'a'\nprint(__annotations__['x'] is int, repr(__annotations__['y']))\n"),
+    ('env-annotations-function', "def f(a: int, b: float = 1.0) -> bool:\n    return True\nprint(f.__annotations__['a'] is int, f.__annotations__['b'] is float, f.__annotations__['return'] is bool)\n"),
+    ('env-annotations-class', "class K:\n    a: int = 0\n    b: list = None\nprint(K.__annotations__['a'] is int, K.__annotations__['b'] is list)\n"),
+    ('env-annotations-dataclass', "import dataclasses\n@dataclasses.dataclass\nclass P:\n    x: int = 0\n    y: float = 0.0\nfs = dataclasses.fields(P)\nprint(fs[0].type is int, fs[1].type is float)\nprint(P(1, 2.0))\n"),
+    ('env-annotations-type-hints', "import typing\ndef g(v: int) -> str:\n    return str(v)\nh = typing.get_type_hints(g)\nprint(h['v'] is int, h['return'] is str, g.__annotations__['v'])\n"),
+    ('env-annotation-undefined-name', "print('before')\ndef conv(value: Quantity) -> float:\n    return float(value)\nprint('after')\n"),
+    ('env-annotation-evaluated-once', "n = []\ndef mark():\n    n.append(1)\n    return int\ndef f(a: mark()):\n    return a\nprint(len(n))\n"),
+    ('env-globals', "a = 1\ndef f():\n    pass\nprint(sorted(k for k in globals() if not k.startswith('__')))\nprint(sorted(k for k in globals() if k.startswith('__')))\n"),
+    ('env-builtins', "print(__builtins__ is not None, type(__builtins__).__name__)\nprint('len' in (__builtins__ if isinstance(__builtins__, dict) else vars(__builtins__)))\n"),
+    ('env-pep479', "def g():\n    raise StopIteration\n    yield 1\ntry:\n    list(g())\nexcept RuntimeError as e:\n    print('RuntimeError', type(e.__cause__).__name__)\n"),
+    ('env-true-division', "print(1 / 2, 7 // 2, -7 // 2)\n"),
+    ('env-debug-assert', "print(__debug__)\ntry:\n    assert False, 'm'\n    print('no assert')\nexcept AssertionError as e:\n    print('AssertionError', e)\n"),
+    ('env-docstring', "def f():\n    'doc of f'\n    return 1\nclass K:\n    'doc of K'\nprint(f.__doc__, K.__doc__)\n"),
+    ('env-optimize-flags', "import sys\nprint(sys.flags.optimize, sys.flags.dev_mode)\n"),
+    ('env-file-spec', "for nm in ('__file__', '__spec__', '__package__', '__loader__'):\n    print(nm, nm in globals())\n"),
+    ('env-locals-is-globals', "print(locals() is globals())\nclass K:\n    print('__module__' in locals(), '__qualname__' in locals())\n"),
+    ('env-barry-as-flufl', "try:\n    c = compile('1 <> 2', '<s>', 'eval')\n    print('flufl')\nexcept SyntaxError:\n    print('no flufl')\n"),
+    ('env-nested-compile-inherits', "c = compile('x: int = 1', '<s>', 'exec')\nd = {}\nexec(c, d)\nprint(d['__annotations__']['x'] is int)\n"),
+    ('env-generator-stop', "def g():\n    yield 1\n    return 5\ndef h():\n    r = yield from g()\n    print('r', r)\nlist(h())\n"),
+    ('env-class-module-name', "class K:\n    pass\nprint(K.__qualname__, K.__module__ == __name__)\n"),
+]
+
+# Observed differences that are by design and NOT part of the family (reported to the lead):
+ENV_OBSERVATIONS = [
+    ('print(__name__)', "under nextline the script's __name__ is 'nextline.spawned.plugin.plugins._script', executed directly it is "
+                        "'__main__' (an `if __name__ == \"__main__\":` block does not run under nextline); documented in _script.py"),
+]
